@@ -10,6 +10,7 @@ import (
 	"strings"
 
 	kv "github.com/XiXi-2024/xixi-kv"
+	"github.com/XiXi-2024/xixi-kv/vsim/vclock"
 	"github.com/XiXi-2024/xixi-kv/vsim/vos"
 	"github.com/XiXi-2024/xixi-kv/vsim/vrt"
 )
@@ -1045,6 +1046,7 @@ func (r *Runner) seqMain() {
 		}
 		r.step = i
 		r.FS.CurOp = i
+		r.opClock = append(r.opClock, vclock.NowNs())
 		r.judging = r.judges(op.K)
 		r.dispatch(i, op)
 		if r.violated() {
